@@ -44,7 +44,7 @@ def run(ctx):
     ctx.add("C14.R2", root + "#registered-tag-required", bool(reg),
             "an answer must require the tag to be present in the server's public key map", at,
             sample=[S(t, 4) for t in reg])
-    prf = [e for e in Q.calls(eng, "PPRF>::eval") if e["frame"] == fr.key]
+    prf = [e for e in Q.calls(eng, "PPRF>::eval")]
     okprop = False
     if len(prf) == 1 and prf[0]["result"] is not None:
         # Ok of Server::eval requires Ok of the PRF evaluation
@@ -57,8 +57,10 @@ def run(ctx):
             "an answer must require the puncturable PRF evaluation to have succeeded (a punctured tag must fail)", at)
     # the registration test precedes the PRF evaluation
     cfg = fr.cfg
+    from .common import block_in_frame
     gets = [e for e in Q.calls(eng, "ServerPublicKey::get") if e["frame"] == fr.key]
-    okorder = bool(gets) and bool(prf) and cfg.dominates(gets[0]["block"], prf[0]["block"])
+    pb = block_in_frame(eng, prf[0], fr) if prf else None
+    okorder = bool(gets) and pb is not None and cfg.dominates(gets[0]["block"], pb)
     ctx.add("C14.R2", root + "#registration-check-first", okorder, "the registration check must dominate the PRF evaluation", at)
     # new registers exactly the given tags
     rootn = P + "Server::new"
